@@ -24,8 +24,9 @@ func init() {
 	core.Register(&core.Rule{
 		ID:    "R19.2",
 		Title: "ignored events return the snapshot untouched; updates touch exactly one path",
-		Text: "In handleUriUpdate the returns guarded by the empty-path, JSON-error and empty-weights tests return the parameter itself on paths without any copy or write; the Data == nil edge deletes exactly `path` from a copy; " +
-			"the update edge assigns exactly uris[path] on a copy.  waitForUriUpdates stores the result of every event through the lazy map, inside the range over the event channel.",
+		Text: "handleUriUpdate is decided world by world on its control flow graph: a world fixes (event for the cluster node itself, deletion, malformed payload, weight-less announcement); edges whose condition contradicts the world are infeasible; " +
+			"every return reached must yield — ignored event: the parameter (or an unmodified copy); deletion: a fresh copy with exactly delete(uris, path); update: a fresh copy with exactly uris[path] = the decoded announcement.  The client receiver is not used.  " +
+			"waitForUriUpdates unconditionally stores the fold of every event, inside the range over the event channel.",
 		Props: []string{"C19"},
 		Floor: map[string]int{"v2": 6, "root": 6},
 		Run:   runR192,
@@ -33,8 +34,9 @@ func init() {
 	core.Register(&core.Rule{
 		ID:    "R19.3",
 		Title: "host selection frame",
-		Text: "Every host assigned as the choice in filterAndChooseHost is the callback argument of iterateHostWeights under the hostFilter test; chooseHost tries schemes in slice order and returns the first non-nil choice, " +
-			"with a constant-true filter when there are no priorities; the scheme filter compares the host's Scheme with the loop's scheme; ResolveHostnameAndContextForQuery returns an error, never a nil URL, when chooseHost returns nil.",
+		Text: "Every host that leaves filterAndChooseHost is an announced host (the callback argument of iterateHostWeights, or the address of the key of a range over the Weights of an entry of the receiver's uris) under the hostFilter test, and nil is returned early only on an emptiness test; " +
+			"chooseHost on its control flow graph: a constant-true filter is used exactly where len(schemes) == 0 is known; scheme filters `u.Scheme == <current scheme>` are used inside a loop visiting the schemes in slice order; a further scheme is tried only where the previous choice is known nil; " +
+			"a choice is returned only where it is known non-nil or the loop ran to its end, nil only after the loop ran to its end with nothing found; ResolveHostnameAndContextForQuery returns the chosen host only where it is known non-nil and a non-nil error where it is known nil.",
 		Props: []string{"C19"},
 		Floor: map[string]int{"v2": 6, "root": 6},
 		Run:   runR193,
